@@ -22,7 +22,7 @@ LEVEL_TEXT = ("Tens of thousands of mutated texts and constructor-built terms pe
               "ones are listed.")
 LEVEL_NOTE = "Round-trip equality uses Term.__eq__ in both directions plus a structural comparison that does not rely on it (so a C18 defect cannot mask or fake a C17 result)."
 TECHNIQUE = "runtime fuzzing monitor (token mutation) + print/parse round-trip oracle with independent structural comparison"
-BUDGET = {"quick": 1200, "thorough": 30000}
+BUDGET = {"quick": 6000, "thorough": 150000}
 TIME_BUDGET = {"quick": 200, "thorough": 3000}
 CASE_TIMEOUT = 60
 
